@@ -513,8 +513,12 @@ LEVEL_TEXT = ('Machine-checked Coq theorems for EVERY byte string (not only the 
               'and no T), RNA = DNA conjugated by T<->U (C05_rna_up_to_U, C05_rna_square, C05_tu_bijection, C05_t2u_square_iff), mixed T/U strings '
               '(C05_mixed_TU), constructor upper-casing (C05_constructor); the derivation of COMPLEMENT_ALL/COMPLEMENT_TRANS from CODES is a Gallina '
               'function proved to yield the regenerated tables (C05_derived_tables, C05_codes_are_iupac; re-checked against /repo on every run). '
-              'The hand-written control flow (U branch, reverse, constructor, in-place object histories with copies and aliases, basket loops, the '
-              '.str route) is tied to sugar by differential testing on every run.')
+              'Objects and baskets as a heap of cells with handles: the basket loop reaches an object once per listing (C05_basket_loop), equals '
+              'the per-sequence map when every object is listed once (C05_basket_nodup, C05_basket_is_map), copy() isolates (C05_copy_isolation), '
+              'every history of complement/reverse/rc keeps all lengths and GC counts (C05_history_invariants) and acts on an object through two '
+              'parities only (C05_history_normal_form, C05_object_history, C05_trace_last). '
+              'That the Gallina functions are what the Python code does (U branch, reverse, constructor, in-place methods, copies, aliases, basket '
+              'loops, the .str route) is tied to sugar by differential testing of every intermediate state on every run.')
 LEVEL_NOTE = ('Trusted: Coq kernel/vm_compute, tools/gen_data.py (tables), the correspondence harness, CPython str.translate/replace/upper/lower. '
               'Modelled rather than verified: BioSeq.__init__ (upper-casing), complement/reverse/rc/gc, .str.translate/.replace/.lower, copy, '
               'BioBasket.complement/reverse/rc/.str.translate over a heap of objects with handles (run_C05_hist); Python str limited to Latin-1, '
